@@ -11,6 +11,8 @@
 #include "Geometry/BiTargetCheckCode.hpp"
 #include "Geometry/BiTargetCheckBench.hpp"
 #include "Matrix/MatrixSparse.hpp"
+#include "Anamorphosis/AnamHermite.hpp"
+#include "Space/SpacePoint.hpp"
 
 namespace c10o
 {
@@ -30,38 +32,13 @@ template<class T> struct Kit
 
 // set by a mutator that made a covariance-matrix request FAIL (known defect D1: the optimisation cache stays set);
 // every failure of a history containing such a request is reported under the single stale-cache key.
-static bool g_failedOptimRequest = false;
-static const char* const STALE_KEY = "C10:stale-cache:evalCovMatrixOptim-after-failed-request";
+static int g_failedOptimRequest = 0; // 1: evalCovMatrixOptim, 2: evalCovMatrixSymmetricOptim
+static const char* const STALE_KEY[3] = {"", "C10:stale-cache:evalCovMatrixOptim-after-failed-request",
+                                            "C10:stale-cache:evalCovMatrixSymmetricOptim-after-failed-request"};
 
-struct Rec
-{
-  std::string oracle, key, detail;
-  bool ok;
-};
-inline std::string packRecs(const std::vector<Rec>& v)
-{
-  std::string o;
-  for (auto& e : v) o += e.oracle + "\x1f" + e.key + "\x1f" + (e.ok ? "1" : "0") + "\x1f" + e.detail + "\x1e";
-  return o;
-}
-inline std::vector<Rec> unpackRecs(const std::string& s)
-{
-  std::vector<Rec> v;
-  size_t p = 0;
-  while (p < s.size())
-  {
-    size_t e = s.find('\x1e', p);
-    if (e == std::string::npos) break;
-    std::string line = s.substr(p, e - p);
-    p = e + 1;
-    std::vector<std::string> f;
-    size_t q = 0;
-    for (int i = 0; i < 3; i++) { size_t t = line.find('\x1f', q); if (t == std::string::npos) break; f.push_back(line.substr(q, t - q)); q = t + 1; }
-    if (f.size() != 3) continue;
-    v.push_back({f[0], f[1], line.substr(q), f[2] == "1"});
-  }
-  return v;
-}
+using c10::Rec;
+using c10::packRecs;
+using c10::unpackRecs;
 
 // body of one copy experiment; returns the oracle evaluations (so that it can run in a forked child)
 template<class T> std::vector<Rec> kitBody(Rng r, Kit<T>& k, int how, const std::string& base, std::string& hist)
@@ -132,7 +109,7 @@ template<class T> void runKit(Rng& r, Ctx& c, Kit<T>& k, const bool* inChild = n
   c.setSig("obj:" + k.cls + ":" + hn);
   std::string base = "C10:copy:" + k.cls + ":" + hn;
   Rng body(r.next());
-  g_failedOptimRequest = false;
+  g_failedOptimRequest = 0;
   std::vector<Rec> recs;
   std::string hist;
   if (inChild != nullptr && inChild[how])
@@ -145,7 +122,7 @@ template<class T> void runKit(Rng& r, Ctx& c, Kit<T>& k, const bool* inChild = n
   for (auto& e : recs)
   {
     if (e.oracle == "PROBE") { c.probe(e.key); c.puts("mutators", e.detail); }
-    else if (!e.ok && g_failedOptimRequest) c.truth(e.oracle, STALE_KEY, false, "(" + e.key + ") " + e.detail);
+    else if (!e.ok && g_failedOptimRequest) c.truth(e.oracle, STALE_KEY[g_failedOptimRequest], false, "(" + e.key + ") " + e.detail);
     else c.truth(e.oracle, e.key, e.ok, e.detail);
   }
   if (g_failedOptimRequest) c.probe("objcopy-history-with-failed-optim-request");
@@ -263,7 +240,7 @@ inline Db* maskedDb()
   {
     Rng q(77);
     DbSpec s;
-    s.n   = 5;
+    s.n   = 9; // more samples than the probe Db: a stale projection is then wrong, not out of bounds
     s.sel = 1.;
     db    = mkDb(q, s);
   }
@@ -312,9 +289,8 @@ inline void objModel(Rng& r, Ctx& c)
   // stale-cache defect turns every later answer of that object wrong.
   k.mut.push_back({"failed-evalCovMatrixOptim", [](Model* m, Rng& q) {
     if (!q.coin(0.3)) return;
-    g_failedOptimRequest = true;
-    if (q.coin()) (void)m->evalCovMatrixOptim(maskedDb());
-    else (void)m->evalCovMatrixSymmetricOptim(maskedDb()); }});
+    if (q.coin()) { if (!g_failedOptimRequest) g_failedOptimRequest = 1; (void)m->evalCovMatrixOptim(maskedDb()); }
+    else { if (!g_failedOptimRequest) g_failedOptimRequest = 2; (void)m->evalCovMatrixSymmetricOptim(maskedDb()); } }});
   runKit(r, c, k);
 }
 
@@ -575,5 +551,92 @@ inline void objNeigh(Rng& r, Ctx& c)
     c.truth("copy-owned", std::string("C10:copy:NeighMoving:") + (how == 0 ? "copy-ctor" : "assign") + ":added-bitarget-checks-shared-with-source",
             ch.ok && ch.data == "OK", ch.ok ? ch.data : ch.why());
   }
+}
+
+// ------------------------------------------------------------------------------------------------ VarioParam / CovAniso / AnamHermite
+inline void objVarioParam(Rng& r, Ctx& c)
+{
+  Kit<VarioParam> k;
+  k.cls    = "VarioParam";
+  k.build  = [](Rng& q) { return new VarioParam(mkVarioParam(q)); };
+  k.digest = [](VarioParam* v) {
+    return digOf([&](Dig& g) {
+      g.i(v->getDirectionNumber()); g.d(v->getScale()); digVD(g, v->getDates());
+      for (int id = 0; id < v->getDirectionNumber(); id++)
+      {
+        const DirParam& d = v->getDirParam(id);
+        g.i(d.getLagNumber()); g.d(d.getDPas()); g.d(d.getTolDist()); g.d(d.getTolAngle()); g.d(d.getBench()); g.d(d.getCylRad());
+        g.i(d.getOptionCode()); digVD(g, d.getCodirs()); digVD(g, d.getBreaks()); digVI(g, d.getGrincrs());
+      }
+    });
+  };
+  k.copyCtor = [](const VarioParam* a) { return new VarioParam(*a); };
+  k.clone    = [](const VarioParam* a) { return a->clone(); };
+  k.assign   = [](VarioParam* b, const VarioParam* a) { *b = *a; };
+  k.mut.push_back({"addDir", [](VarioParam* v, Rng& q) { v->addDir(DirParam(q.irange(2, 6), q.uni(5, 20), 0.5)); }});
+  k.mut.push_back({"delDir", [](VarioParam* v, Rng& q) { if (v->getDirectionNumber() > 1) v->delDir(q.irange(0, v->getDirectionNumber() - 1)); }});
+  k.mut.push_back({"setScale", [](VarioParam* v, Rng& q) { v->setScale(q.uni(0.1, 2)); }});
+  k.mut.push_back({"setDates", [](VarioParam* v, Rng& q) { v->setDates(VectorDouble({q.uni(0, 1), q.uni(2, 3)})); }});
+  k.mut.push_back({"delAllDirs+addDir", [](VarioParam* v, Rng& q) { v->delAllDirs(); v->addDir(DirParam(q.irange(2, 6), q.uni(5, 20), 0.5)); }});
+  runKit(r, c, k);
+}
+inline void objCovAniso(Rng& r, Ctx& c)
+{
+  Kit<CovAniso> k;
+  k.cls   = "CovAniso";
+  k.build = [](Rng& q) {
+    ModelSpec s;
+    s.nugget = false;
+    s.ncov   = 1;
+    UModel m = mkModel(q, s);
+    return new CovAniso(*m->getCova(0));
+  };
+  k.digest = [](CovAniso* cv) {
+    return digOf([&](Dig& g) {
+      g.i(cv->getType().getValue()); digVD(g, cv->getRanges()); digVD(g, cv->getAnisoAngles()); g.d(cv->getParam()); g.d(cv->getSill(0, 0));
+      SpacePoint p1(VectorDouble({0., 0.})), p2(VectorDouble({7., -11.}));
+      g.d(cv->eval(p1, p2)); // answers only: the state of the projection cache is not part of the verdict
+    });
+  };
+  k.copyCtor = [](const CovAniso* a) { return new CovAniso(*a); };
+  k.clone    = [](const CovAniso* a) { return a->clone(); };
+  k.assign   = [](CovAniso* b, const CovAniso* a) { *b = *a; };
+  k.mut.push_back({"setRanges", [](CovAniso* cv, Rng& q) { cv->setRanges(VectorDouble({q.uni(5, 50), q.uni(5, 50)})); }});
+  k.mut.push_back({"setRangeIsotropic", [](CovAniso* cv, Rng& q) { cv->setRangeIsotropic(q.uni(5, 50)); }});
+  k.mut.push_back({"setSill", [](CovAniso* cv, Rng& q) { cv->setSill(q.uni(0.5, 4)); }});
+  k.mut.push_back({"setAnisoAngles", [](CovAniso* cv, Rng& q) { cv->setAnisoAngles(VectorDouble({q.uni(0, 180), 0.})); }});
+  k.mut.push_back({"optimizationPreProcess", [](CovAniso* cv, Rng&) { cv->optimizationPreProcess(probeDb()); }});
+  k.mut.push_back({"optimizationPostProcess", [](CovAniso* cv, Rng&) { cv->optimizationPostProcess(); }});
+  runKit(r, c, k);
+}
+inline void objAnam(Rng& r, Ctx& c)
+{
+  Kit<AnamHermite> k;
+  k.cls   = "AnamHermite";
+  k.build = [](Rng& q) {
+    AnamHermite* a = AnamHermite::create(q.irange(5, 12));
+    VectorDouble t(q.irange(15, 30));
+    for (auto& x : t) x = std::exp(q.normal() * 0.5);
+    (void)a->fitFromArray(t);
+    return a;
+  };
+  k.digest = [](AnamHermite* a) {
+    return digOf([&](Dig& g) {
+      digVD(g, a->getPsiHns()); g.d(a->getRCoef()); g.i(a->getFlagBound());
+      for (double y : {-1.5, -0.3, 0.4, 2.1}) g.d(a->transformToRawValue(y));
+      for (double z : {0.5, 1.0, 2.0}) g.d(a->rawToTransformValue(z));
+    });
+  };
+  k.copyCtor = [](const AnamHermite* a) { return new AnamHermite(*a); };
+  k.clone    = [](const AnamHermite* a) { return a->clone(); };
+  k.assign   = [](AnamHermite* b, const AnamHermite* a) { *b = *a; };
+  k.mut.push_back({"setPsiHn", [](AnamHermite* a, Rng& q) { a->setPsiHn(q.irange(0, a->getNbPoly() - 1), q.uni(-1, 1)); }});
+  k.mut.push_back({"setRCoef", [](AnamHermite* a, Rng& q) { a->setRCoef(q.uni(0.5, 0.95)); }});
+  k.mut.push_back({"setFlagBound", [](AnamHermite* a, Rng& q) { a->setFlagBound(q.coin()); }});
+  k.mut.push_back({"fitFromArray", [](AnamHermite* a, Rng& q) {
+    VectorDouble t(q.irange(15, 30));
+    for (auto& x : t) x = std::exp(q.normal() * 0.7) + 1;
+    (void)a->fitFromArray(t); }});
+  runKit(r, c, k);
 }
 } // namespace c10o
